@@ -291,6 +291,12 @@ def main2(prop, cfg, tier, seed, scratch, instr_stats, replay_mode, t_start):
                     if idx is None:
                         harness_errors.append("worker %d-%d died before its first run (exit %d):\n%s" % (lo, hi, p.returncode, tail))
                         continue
+                    if "harness panic in run index" in tail or "panic: harness:" in tail:
+                        # a defect of the harness itself (generator, oracle), never a verdict
+                        harness_errors.append("harness panic at run index %s:\n%s" % (idx, tail[-2500:]))
+                        if idx + 1 < hi and len(harness_errors) < 5:
+                            pending.append((idx + 1, hi))
+                        continue
                     deaths += 1
                     hung = p.returncode == 3 and any(r.get("type") == "violation" and r["replay"].get("class") == "hang" and r["replay"].get("index") == idx for r in recs)
                     if hung:
